@@ -28,7 +28,14 @@ ASSUMPTIONS = [
     'ElasticSolidsScheme (no setup_properties) and tools.ParticlePacking are outside the quantifier',
     'numeric options enter the grid as zero / positive where the code branches on them; other numbers are fixed',
     'CPU (cython) backend, serial',
-    '"a short run leaves all properties finite" is execution of a stratified sample (2 steps, small lattices), not proof',
+    '"a short run leaves all properties finite" is execution of a stratified sample, not proof: initial evaluation + 3 steps on a '
+    'uniform lattice with h = hdx*dx (ideal-gas schemes: e, p and the pilot h0 = h; walls where the configuration has solids, with '
+    'the wall inputs V / rho0 / normals the shipped examples set), in an open and in a periodic domain; every floating-point '
+    'property of the real particles finite after each of them. quick: every scheme class (EDAC per formulation) once per run, '
+    '~35 (configuration, domain) variants walking through a pairwise cover of the options with the seed; thorough: the whole covers',
+    'not run (harness/c12.py NOT_A_SETUP / KNOWN_DEFECT): PCISPHScheme in an open domain (no free-surface treatment; periodic only); '
+    'ISPHScheme without scipy; finiteness not demanded for walls in a periodic domain with TSPHScheme / PSPHScheme / IISPHScheme '
+    '(genuine defects of the unchanged tree: ghost copies of wall particles are never evaluated; proposed_fixes/C12-*-wall-ghosts.diff)',
     '"code generation succeeds" is proved only as far as the table goes (names present, index-used arguments integer-typed); '
     'beyond that it is execution: real code generation + Cython translation of a sample covering every scheme and every '
     'value of every option (pairs of values for the axes with <= 3 values)',
@@ -46,11 +53,12 @@ LEVEL_TEXT = ("Lean 4 theorems: all_configs_complete / all_option_combinations_c
               "every run by running the schemes; the harness validates the extraction against the real code's own "
               "functions and evaluates the property directly on the real checkers / code generator / known types for "
               "every grid point, generates and Cython-translates a covering sample (every scheme, every option value), "
-              "and compiles + runs a stratified sample.")
+              "and compiles + runs a stratified sample on realistic lattices in open and periodic domains (all workers under a "
+              "process runner that reports a killed worker as a failure of its configuration).")
 LEVEL_NOTE = ("Proof for the tree the table was generated from (the quantifier is a finite table). Trusted: Lean kernel; the "
               "translator and its grid audit (validated each run); the AST scan for dst.<name> reads; plain arrays named "
               "fluid/solid; EDAC without inlet/outlet manager. 'Code generation succeeds' and 'a short run stays finite' "
               "are execution (every grid point for the checkers and the index-type oracle, sample for codegen in quick / "
-              "all distinct in thorough, ~150 configurations generated + cythonized, 3 compiled runs quick / ~150 "
-              "thorough), not proof.")
+              "all distinct in thorough, ~150 configurations generated + cythonized, ~35 compiled-and-run (configuration, domain) "
+              "variants quick / ~570 thorough), not proof.")
 TIMEOUT = {'quick': 1500, 'thorough': 3 * 3600}
